@@ -107,6 +107,13 @@ class D2(S1):
     z: Optional[torch.Tensor] = None
 
 
+# tensor-only fields of one shape (what cat_from_tensordict / stack_from_tensordict / to_struct_array need to succeed)
+@tensorclass
+class T1:
+    x: torch.Tensor
+    y: torch.Tensor
+
+
 # --------------------------------------------------------------------------- user methods colliding with the lists
 def _user(tag):
     def f(self, *a, **k):
@@ -174,7 +181,7 @@ SPECS = [
     Spec("D2", D2, lambda: {"__annotations__": {"z": Optional[torch.Tensor]}, "z": None}, S1),
 ]
 
-BEHAVIOUR_CLASSES = {"D1": D1, "S1": S1, "Fz": Fz, "FzS": FzS, "Ac": Ac, "AcS": AcS, "Nc": Nc, "NcS": NcS, "Sh": Sh, "D2": D2}
+BEHAVIOUR_CLASSES = {"D1": D1, "S1": S1, "Fz": Fz, "FzS": FzS, "Ac": Ac, "AcS": AcS, "Nc": Nc, "NcS": NcS, "Sh": Sh, "D2": D2, "T1": T1}
 
 
 def make(cls, batch=(2, 3), seed=0, lock=None, strings=None, flavour="float"):
@@ -187,9 +194,14 @@ def make(cls, batch=(2, 3), seed=0, lock=None, strings=None, flavour="float"):
     g = seed * 1000
     strings = "0" if strings is None else strings
     x = (torch.arange(n * 4, dtype=torch.float32).reshape(*batch, 4) + g) / 8 + 0.25
-    y = torch.arange(n, dtype=torch.float32).reshape(*batch) + 100 + g
+    y = torch.arange(n, dtype=torch.float32).reshape(tuple(batch)) + 100 + g
     if flavour == "bool":
         x, y = (x * 8).long() % 3 == seed % 3, y.long() % 2 == seed % 2
+    if cls is T1:
+        kw = dict(x=x, y=(~x if flavour == "bool" else x * 2 + 1), batch_size=list(batch))
+        if lock is not None:
+            kw["lock"] = lock
+        return cls(**kw)
     nest = Nest(y=y, t=f"nested{strings}", batch_size=list(batch))
     kw = dict(x=x, n=nest, s=f"hi{strings}", batch_size=list(batch))
     if lock is not None:
